@@ -921,7 +921,29 @@ def simple_model(v, sc, cfg, expect=None, module="SimpleV1"):
     v.cov.setdefault("regression_twins", []).append("%s %s: violated as expected (%s)" % (module, cfg, expect))
 
 
+def v1_refinement(v, sc, binary):
+    """PrioV1 (static inputs, stop / cancel / graceful) implements InnerAbs, the abstraction of the inner discipline SimpleV1.tla is
+    built on: TLC checks the temporal property Abs!Spec under the refinement mapping of PrioV1_Refines.tla; a twin with one handler
+    less must fail"""
+    cfg = mk1("v1ref", [2, 1], {2: 1, 1: 2}, 2, "rate", 2, 1, 2, stop=True, cancel=True, graceful=True)
+    sub = os.path.join(sc, "m-v1ref")
+    os.makedirs(sub, exist_ok=True)
+    stage_specs(sub)
+    cfgp, rows = pm.div_table(binary, cfg, sub)
+    name = pm.write_mc_v1(sub, cfg, rows, invariants=["AbsCapacity"], properties=["AbsSpec"], spec="Spec", module="PrioV1_Refines")
+    r = tlc(sub, name, cfg=name + ".cfg", workers=8, timeout=1500)
+    if not r.ok:
+        raise Inconclusive("TLC: refinement PrioV1 => InnerAbs fails (a lead, not a verdict) or TLC failed\n%s" % r.out[-2500:])
+    v.add_tlc(r, "%s: PrioV1 => InnerAbs (refinement mapping; the abstraction SimpleV1 uses for the inner discipline)" % name)
+    twin = pm.write_mc_v1(sub, cfg, rows, properties=["AbsTightSpec"], spec="Spec", module="PrioV1_Refines", prefix="MCT_")
+    rt = tlc(sub, twin, cfg=twin + ".cfg", workers=8, timeout=1500)
+    if not rt.prop_violated:
+        raise Inconclusive("vacuity twin of the refinement check: an abstraction with H-1 handlers must not be implemented")
+    v.cov.setdefault("regression_twins", []).append("%s: refinement into InnerAbs with H-1 violated as expected" % twin)
+
+
 def models_C16(v, sc, binary):
+    v1_refinement(v, sc, binary)
     simple_model(v, sc, "MC_SimpleV1")
     simple_model(v, sc, "MC_SimpleV1_twinF5", expect="live")
     small = mk1("v1stopm", [2, 1], {2: 1, 1: 2}, 2, "rate", 2, 1, 1, stop=True, cancel=True)   # 2 items can occupy both handlers
